@@ -11,6 +11,7 @@ From Coq Require Import ZArith List Bool.
 From Low Require Import Model.Size Spec.SizeSpec Proofs.SizeProofs.
 From Low Require Import Model.SizeFmt Model.SizeStat Spec.SizeStatSpec Proofs.SizeStatProofs.
 From Low Require Import Model.TypeHelper Spec.TypeHelperSpec Proofs.TypeHelperProofs.
+From Low Require Import Model.SizeGraph Spec.SizeGraphSpec Proofs.SizeGraphProofs.
 Import ListNotations.
 Open Scope Z_scope.
 
@@ -193,4 +194,47 @@ Example C20_ToSlice_nonvacuous :
   ToSlice box_value (targ_of (Some (VArray l))) = None /\
   ToSlice box_value (targ_of None) = None /\
   ToSlice box_value (targ_of (Some (VSlice None))) = Some [].
+Proof. vm_compute. repeat split; reflexivity. Qed.
+
+(** ------------------------------------------------------------------------
+    WIDENING 3: values that SHARE pointers.  size.Of keeps no record of the
+    pointers it has followed: it is a TREE sum over the unfolding of the value,
+    and the same pointer reached twice is counted twice.  Model:
+    Model/SizeGraph.v (values with references [GRef a] into a heap of cells;
+    [gsizeof] = sizeof.go with [v.Elem()] of a reference reading the heap;
+    fuel = nesting of calls).  Specification: Spec/SizeGraphSpec.v ([unfold]:
+    every reference replaced by a pointer to a copy of the unfolded cell;
+    [ordered]: cell a refers to cells below a only, i.e. the heap is acyclic).
+    Any number of cells, references and nesting. *)
+
+(** whatever the sharing: the result is the structural sum of the tree unfolding *)
+Theorem C20_graph_tree_sum : forall h fuel v t,
+  unfold h fuel v = Some t -> supported t -> gsizeof h fuel v = Some (spec_size t).
+Proof. exact gsizeof_unfold. Qed.
+Print Assumptions C20_graph_tree_sum.
+
+(** the same pointer stored twice is counted twice: header and pointee, both times *)
+Theorem C20_graph_shared_counted_twice : forall h fuel a cell t,
+  nth_error h a = Some cell -> unfold h fuel cell = Some t -> supported t ->
+  gsizeof h (S (S fuel)) (GStruct [GRef a; GRef a]) = Some (2 * (8 + spec_size t)).
+Proof. exact shared_counted_twice. Qed.
+Print Assumptions C20_graph_shared_counted_twice.
+
+(** on an acyclic heap the recursion ends (within [enough_fuel] nested calls) with that sum *)
+Theorem C20_graph_acyclic_terminates : forall h v,
+  ordered h = true -> refs_below (length h) v = true ->
+  exists t, unfold h (enough_fuel h v) v = Some t /\
+            (supported t -> gsizeof h (enough_fuel h v) v = Some (spec_size t)).
+Proof. exact gsizeof_ordered. Qed.
+Print Assumptions C20_graph_acyclic_terminates.
+
+(** non-vacuity: a diamond (two struct cells sharing a string cell) reached twice = 4 copies of the string;
+    a cell that points to itself is not ordered and exhausts any fuel *)
+Example C20_graph_nonvacuous :
+  let h := [GString [97; 98; 99]; GStruct [GRef 0; GScalar KInt8]; GStruct [GRef 0; GRef 1]] in
+  let v := GSlice (Some [GRef 2; GRef 2]) in
+  ordered h = true /\ refs_below (length h) v = true /\
+  gsizeof h (enough_fuel h v) v = Some (24 + 2 * (8 + (8 + 19) + (8 + (8 + 19) + 1))) /\
+  option_map spec_size (unfold h (enough_fuel h v) v) = Some 166 /\
+  ordered [GStruct [GRef 0]] = false /\ gsizeof [GStruct [GRef 0]] 50 (GRef 0) = None.
 Proof. vm_compute. repeat split; reflexivity. Qed.
